@@ -83,7 +83,9 @@ TEXTS = {
                 "checked directly on real traces.",
         "design_ref": "DESIGN.md §5 C02",
         "note": "Only operations begun after the end of the task are refused with a send error: SendErr_holds (no "
-                "hypothesis), monSendErr in the chain. "
+                "hypothesis), monSendErr in the chain; a call or ping returns Canceled only after the end of the task or "
+                "after the invocation for its own message was abandoned / panicked: CancelErr_holds (fresh operation "
+                "ids), monCancelErr in the chain. "
                 "monC02t (a late await after a graceful end returns Ok) is false of unguarded runs and proved for guarded "
                 "runs (C02g_holds), which are what the acceptor accepts. 'Awaits complete with the termination result' is "
                 "carried in the chain by monC04 (announcement clauses) and monC06 (both proved). Trusted: Lean "
@@ -183,8 +185,12 @@ TEXTS = {
                 "(timeout_fut) and is tied to the code by acceptance of real traces in which the harness's "
                 "futures-timer Delay runs on the virtual clock.",
         "design_ref": "DESIGN.md §5 C11",
-        "note": "Partial: the prompt-schedule clauses and 'caller receives an error' (monC11p) are trace-checked, not "
-                "proved. Trusted: Lean kernel + axioms; virtual time in place of futures-timer; select! tie at d = t excluded.",
+        "note": "'The caller of an abandoned invocation gets an error' is theorem C11c_holds (monC11c); conversely nobody "
+                "else's call is cancelled while the actor lives on: CancelErr_holds (fresh operation ids), monCancelErr "
+                "in the chain. The prompt-schedule clauses (needs less than t completes, needs more is abandoned exactly "
+                "at t) are theorem C11t_holds for prompt runs (prun); on real traces monC11p itself runs. A configured "
+                "timeout of zero is outside the model (DESIGN 12). Trusted: Lean kernel + axioms; virtual time in place "
+                "of futures-timer; select! tie at d = t excluded.",
         "technique": "Lean 4 proof (deadline/phase coupling by exhaustive step case analysis) + checked trace correspondence",
     },
     "C04": {
